@@ -209,25 +209,35 @@ theorem confOk_tpl (e : Env) (pc : PathConf) (h : pathConfOk e pc = true) (l : S
 
 theorem confOk_default (e : Env) (pc : PathConf) (h : pathConfOk e pc = true) (k dv : Str)
     (hd : pc.defaults.lookup k = some dv) (l : Str) (t : Template) (hm : (l, t) ∈ pc.templates)
-    (ex : Re) (htok : Tok.ph k ex ∈ t) : ex ≠ Re.star Cls.notSlash ∧ ex.accepts e dv = true := by
+    (ex : Re) (htok : Tok.ph k ex ∈ t) :
+    ex.accepts e dv = true ∧ (ex ≠ Re.star Cls.notSlash ∨ unmapped pc k = true) := by
   simp only [pathConfOk, Bool.and_eq_true, List.all_eq_true] at h
   have := h.2 (k, dv) (lookup_some_mem _ _ _ hd) (l, t) hm (.ph k ex) htok
-  simpa using this
+  simp only [bne_self_eq_false, Bool.false_or, Bool.and_eq_true, Bool.or_eq_true,
+    Bool.not_eq_true', beq_eq_false_iff_ne, ne_eq] at this
+  exact this
 
 theorem confOk_mapping (e : Env) (pc : PathConf) (h : pathConfOk e pc = true) (k : Str)
     (m : List (Str × Str)) (hm : pc.mapping.lookup k = some m) :
-    distinctStr (m.map (·.2)) = true ∧ (∀ pv ∈ m, pv.2 ≠ []) ∧
-      ∀ l t, (l, t) ∈ pc.templates → ∀ ex, Tok.ph k ex ∈ t → ∀ pv ∈ m, ex.accepts e pv.2 = false := by
+    (∀ pv ∈ m, pv.2 ≠ []) ∧
+      ∀ l t, (l, t) ∈ pc.templates → ∀ ex, Tok.ph k ex ∈ t →
+        (∀ pv ∈ m, ex.accepts e pv.2 = false) ∧
+        (∀ pv ∈ m, ex.accepts e pv.1 = true → ex.accepts e (Ctx.getKey m pv.2) = true) := by
   simp only [pathConfOk, mappingOk, Bool.and_eq_true, List.all_eq_true] at h
   have := h.1.2 (k, m) (lookup_some_mem _ _ _ hm)
-  refine ⟨this.1.1.2, ?_, ?_⟩
+  refine ⟨?_, ?_⟩
   · intro pv hpv
     have := this.1.2 pv hpv
     simpa using this
-  · intro l t hlt ex htok pv hpv
+  · intro l t hlt ex htok
     have := this.2 (l, t) hlt (.ph k ex) htok
-    simp only [bne_self_eq_false, Bool.false_or, List.all_eq_true, Bool.not_eq_true'] at this
-    exact this pv hpv
+    simp only [bne_self_eq_false, Bool.false_or, Bool.and_eq_true, List.all_eq_true,
+      Bool.not_eq_true', Bool.or_eq_true] at this
+    refine ⟨this.1, ?_⟩
+    intro pv hpv hacc
+    rcases this.2 pv hpv with h1 | h1
+    · rw [hacc] at h1; exact absurd h1 (by simp)
+    · exact h1
 
 theorem valuesOk_iff (e : Env) (t : Template) (d : Dict) :
     valuesOk e t d = true ↔ ∀ k ex, Tok.ph k ex ∈ t → ∃ v, d.get k = some v ∧
@@ -294,56 +304,87 @@ theorem closed_word_ne_nil (e : Env) (k : Str) (ex : Re) (a : Atom) (ha : phAtom
     | nil => exact hwne rfl
     | cons _ _ => simp at hm
 
-/-- path value → sid value → (default) → path value is the identity on captured words -/
-theorem value_roundtrip (e : Env) (pc : PathConf) (hwf : pathConfOk e pc = true) (l : Str)
+/-- path value → sid value → (default) → path value: a captured word comes back as a word the
+    expression accepts (the same word when the mapping is one-to-one; the first word listed for its
+    sid value otherwise; the default when a free key captured the empty string) -/
+theorem value_reaccepted (e : Env) (pc : PathConf) (hwf : pathConfOk e pc = true) (l : Str)
     (t : Template) (hlt : (l, t) ∈ pc.templates) (k : Str) (ex : Re) (htok : Tok.ph k ex ∈ t)
     (a : Atom) (ha : phAtom k ex = some a) (hoka : atomOk e a = true) (u : Str)
-    (hu : aword e a u) : g2 pc k (g1 pc k (g0 pc k u)) = u := by
+    (hu : aword e a u) : ex.accepts e (g2 pc k (g1 pc k (g0 pc k u))) = true := by
   have hacc : ex.accepts e u = true := (ph_accepts e k ex a ha u).mpr hu
-  have hg1 : ∀ x, (x = u ∨ x ≠ []) → g1 pc k x = x := by
-    intro x hx
-    simp only [g1]
-    cases hd : pc.defaults.lookup k with
-    | none => rfl
-    | some dd =>
+  -- the core: when the default pass leaves `u` and every non-empty value alone
+  have core : (∀ x, (x = u ∨ x ≠ []) → g1 pc k x = x) →
+      ex.accepts e (g2 pc k (g1 pc k (g0 pc k u))) = true := by
+    intro hg1
+    cases hm : pc.mapping.lookup k with
+    | none =>
+      have h0 : g0 pc k u = u := by simp [g0, hm]
+      rw [h0, hg1 u (Or.inl rfl)]
+      simpa [g2, hm] using hacc
+    | some m =>
+      obtain ⟨hnonempty, hcl⟩ := confOk_mapping e pc hwf k m hm
+      obtain ⟨hnot, hsyn⟩ := hcl l t hlt ex htok
+      by_cases hme : m.isEmpty = true
+      · have h0 : g0 pc k u = u := by simp [g0, hm, hme]
+        rw [h0, hg1 u (Or.inl rfl)]
+        simpa [g2, hm, hme] using hacc
+      · cases hlu : m.lookup u with
+        | some s =>
+          have h0 : g0 pc k u = s := by simp [g0, hm, hme, hlu]
+          have hmem := lookup_some_mem m u s hlu
+          have hsne : s ≠ [] := hnonempty _ hmem
+          rw [h0, hg1 s (Or.inr hsne)]
+          have : s.isEmpty = false := by simpa using hsne
+          simp only [g2, hm, this, Bool.false_or, hme]
+          exact hsyn (u, s) hmem hacc
+        | none =>
+          have h0 : g0 pc k u = u := by simp [g0, hm, hme, hlu]
+          rw [h0, hg1 u (Or.inl rfl)]
+          simp only [g2, hm]
+          split
+          · exact hacc
+          · rw [getKey_not_mem]
+            · exact hacc
+            · intro pv hpv heq
+              have := hnot pv hpv
+              rw [heq, hacc] at this
+              simp at this
+  cases hd : pc.defaults.lookup k with
+  | none =>
+    apply core
+    intro x _
+    simp [g1, hd]
+  | some dd =>
+    obtain ⟨hdacc, hcase⟩ := confOk_default e pc hwf k dd hd l t hlt ex htok
+    rcases hcase with hns | hun
+    · -- a closed placeholder: its words are non-empty, the default never replaces one
+      apply core
+      intro x hx
       have hxne : x ≠ [] := by
         rcases hx with rfl | hx
-        · exact closed_word_ne_nil e k ex a ha hoka
-            (confOk_default e pc hwf k dd hd l t hlt ex htok).1 x hu
+        · exact closed_word_ne_nil e k ex a ha hoka hns x hu
         · exact hx
       have : x.isEmpty = false := by simpa using hxne
-      simp [this]
-  cases hm : pc.mapping.lookup k with
-  | none =>
-    have h0 : g0 pc k u = u := by simp [g0, hm]
-    rw [h0, hg1 u (Or.inl rfl)]
-    simp [g2, hm]
-  | some m =>
-    obtain ⟨hdist, hnonempty, hnot⟩ := confOk_mapping e pc hwf k m hm
-    by_cases hme : m.isEmpty = true
-    · have h0 : g0 pc k u = u := by simp [g0, hm, hme]
-      rw [h0, hg1 u (Or.inl rfl)]
-      simp [g2, hm, hme]
-    · cases hlu : m.lookup u with
-      | some s =>
-        have h0 : g0 pc k u = s := by simp [g0, hm, hme, hlu]
-        have hmem := lookup_some_mem m u s hlu
-        have hsne : s ≠ [] := hnonempty _ hmem
-        rw [h0, hg1 s (Or.inr hsne)]
-        have : s.isEmpty = false := by simpa using hsne
-        simp only [g2, hm, this, Bool.false_or, hme]
-        exact getKey_of_mem_distinct m hdist u s hmem
-      | none =>
-        have h0 : g0 pc k u = u := by simp [g0, hm, hme, hlu]
-        rw [h0, hg1 u (Or.inl rfl)]
-        simp only [g2, hm]
+      simp [g1, hd, this]
+    · -- a free placeholder with a default: the key is not mapped
+      have h0 : g0 pc k u = u := by
+        simp only [unmapped] at hun
+        simp only [g0]
         split
+        · next m hm => rw [hm] at hun; simp only at hun; simp [hun]
         · rfl
-        · apply getKey_not_mem
-          intro pv hpv heq
-          have := hnot l t hlt ex htok pv hpv
-          rw [heq, hacc] at this
-          simp at this
+      have h2 : ∀ x, g2 pc k x = x := by
+        intro x
+        simp only [unmapped] at hun
+        simp only [g2]
+        split
+        · next m hm => rw [hm] at hun; simp only at hun; simp [hun]
+        · rfl
+      rw [h0, h2]
+      simp only [g1, hd]
+      split
+      · exact hdacc
+      · exact hacc
 
 /-- the dictionary `dict_to_path` renders for fields that `path_to_dict` read with template `t`
     satisfies `valuesOk` for `t` (as soon as it has all the keys of `t`) -/
@@ -376,12 +417,11 @@ theorem valuesOk_pathData (e : Env) (pc : PathConf) (hwf : pathConfOk e pc = tru
     rw [mapToSid_get, hu] at h1
     simp only [Option.map_some, Option.getD_some] at h1
     subst h1
-    rw [value_roundtrip e pc hwf l t hlt k ex htok a ha hoka u
-      ((valuesOk_clause e k ex a ha u).mp hcu)]
-    exact hcu
-  · obtain ⟨hns, hacc⟩ := confOk_default e pc hwf k v hdef l t hlt ex htok
-    have : (ex == Re.star Cls.notSlash) = false := by simpa using hns
-    simp [this, hacc]
+    have hre := value_reaccepted e pc hwf l t hlt k ex htok a ha hoka u
+      ((valuesOk_clause e k ex a ha u).mp hcu)
+    exact (valuesOk_clause e k ex a ha _).mpr ((ph_accepts e k ex a ha _).mp hre)
+  · obtain ⟨hacc, _⟩ := confOk_default e pc hwf k v hdef l t hlt ex htok
+    exact (valuesOk_clause e k ex a ha _).mpr ((ph_accepts e k ex a ha _).mp hacc)
 
 /-! ### `path_to_dict`, `sid.path`, `path_to_sid` -/
 
